@@ -5,7 +5,7 @@ CONSTANTS
   ShortCookieRead = TRUE
   DialResetsData = FALSE
   Alpns <- AlpnsQuic
-  Alphabet <- AlphaAll
+  Alphabet <- AlphaWalk
   CutRecs <- CutAll
   MaxRecs = 6
   MaxDials = 3
